@@ -190,12 +190,17 @@ func post_OnPublish_store(s *Service, packet *mqtt.Publish, res0 *errors.Error) 
 	a, t, st, p := vs.TraceFind("Authorize"), vs.TraceFind("Channel).TTL"), vs.TraceFind(".Store"), vs.TraceFind("Service).Publish")
 	key := vs.TraceRet[security.Key](a, 1)
 	ttl, has := vs.TraceRet[int64](t, 0), vs.TraceRet[bool](t, 1)
+	// the ttl the publisher ASKED for (retain = the retention marker); a number beyond what the 32-bit field can
+	// hold means "as long as possible", never "0 = do not store"
 	wantTTL := uint32(0)
 	if packet.Header.Retain {
 		wantTTL = message.RetainedTTL
 	}
 	if has && ttl > 0 {
 		wantTTL = uint32(ttl)
+		if ttl > 4294967295 {
+			wantTTL = 4294967295
+		}
 	}
 	should := wantTTL > 0 && key[15]&security.AllowStore != 0
 	msg := vs.TraceRet[*message.Message](vs.TraceFind("message.New"), 0)
